@@ -255,8 +255,8 @@ def jobs(tier):
             if flavor == 'flow' and q and KINDS[k] not in (
                     'add', 'delete', 'divide', 'move_out'):
                 continue
-            if KINDS[k] == 'generate_over':
-                continue        # in-place replacement during a phase: C10
+            if KINDS[k] in ('generate_over', 'generate_into'):
+                continue        # in-place generation during a phase: C10
             out.append(dict(name='stepobs-%s-%s' % (flavor, KINDS[k]),
                             flavor=flavor, ops=[k], stepobs=True,
                             budget_s=100 if q else 900))
